@@ -33,6 +33,7 @@ def main():
             rp = _j.load(f)
         seed = int(rp.get("seed", seed)); tier = rp.get("tier", tier); replay = None
     v = vlib.Verdict(pid, tier, seed)
+    v.write_evidence = a.replay is None      # a replay run does not replace the evidence of the last full run
     try:
         level = mod.run(v, tier, seed, replay)
     except vlib.Infra as ex:
